@@ -31,8 +31,8 @@ ASSUMPTIONS = [
     "initial modulus of the k-run is pre-scaled by k^-p so both optimisations start at corresponding points",
     "plateau-search cases start at the generating parameters (the scan's shallow sub-fits have a few in-contact "
     "points and a narrow convergence basin; a k-run was observed to end in a second minimum there while the "
-    "k=1 run did not - optimiser behaviour, not the correction factor); scan entries shallower than 30 % of "
-    "the deepest are not compared",
+    "k=1 run did not - optimiser behaviour, not the correction factor); scan entries whose interval holds less "
+    "than 40 % of the indentation depth are not compared",
 ]
 POWER = refmodels.POWER
 
@@ -50,7 +50,10 @@ def st_case(draw):
            "weight_cp": 0 if noisy else draw(st.sampled_from([0, 1e-8, 2e-7, 1e-6])),
            "cp_off": draw(st.sampled_from([0.0, 1.0, -1.0])) * draw(st.floats(0.0, 0.05)),
            "e_factor": 10 ** draw(st.floats(-0.25, 0.25)),
-           "num_samples": draw(st.integers(7, 14))}
+           "num_samples": draw(st.integers(7, 14)),
+           # user-set bounds on the contact point, in measured units, relative to the generating contact point
+           # (fractions of the depth); the optimum lies inside them
+           "cp_bounds": draw(st.sampled_from([None, None, [0.3, 0.3], [0.08, 0.5], [1.5, 0.1]]))}
     cp = curve["params"]["contact_point"]
     if rt == "absolute":
         lo = cp - depth * draw(st.floats(0.3, 1.2))
@@ -75,6 +78,9 @@ def do_fit(case, k):
     idnt = fitgen.prep_curve(curve)
     p = POWER[curve["model"]]
     pi = fitgen.initial_from_truth(curve, e_factor=cfg["e_factor"] * k ** -p, cp_off=cfg["cp_off"])
+    if cfg.get("cp_bounds"):
+        cpt = curve["params"]["contact_point"]
+        pi["contact_point"].set(min=cpt - cfg["cp_bounds"][0] * curve["depth"], max=cpt + cfg["cp_bounds"][1] * curve["depth"])
     cp_init = pi["contact_point"].value
     kw = dict(model_key=curve["model"], params_initial=pi, segment=cfg["segment"],
               weight_cp=cfg["weight_cp"], gcf_k=k, x_axis="tip position", y_axis="force")
@@ -96,6 +102,7 @@ def check_case(case, ctx):
     nontrivial = not (0.99 <= k <= 1.01) and (multi or abs(curve["params"]["contact_point"] + cfg["cp_off"] * curve["depth"]) > 0)
     ctx.note_case(case, nontrivial=nontrivial,
                   classes=[curve["model"], cfg["range_type"], "noisy" if curve["noise"] else "noise_free",
+                           "cp_bounded" if cfg.get("cp_bounds") else "cp_unbounded",
                            f"segment{cfg['segment']}"])
     desc = {"range_type": cfg["range_type"]}
     with ctx.no_raise("fit-raises", dict(desc, k="1")):
@@ -125,8 +132,9 @@ def check_case(case, ctx):
         d1, dk = f1["optimal_fit_delta_array"], fk["optimal_fit_delta_array"]
         ctx.check(np.array_equal(d1, dk), "plateau-depth-grid-differs", desc, "optimal_fit_delta_array differs")
         # scan entries whose interval holds only the shallowest part of the indentation do not
-        # determine E (noise-dominated, optimiser-path dependent): compare the deeper 70 %
-        deep = np.abs(d1) >= 0.3 * np.abs(d1).max()
+        # determine E (noise-dominated, optimiser-path dependent): compare the entries whose interval holds
+        # at least 40 % of the indentation depth (measured from the generating contact point)
+        deep = (curve["params"]["contact_point"] - d1) >= 0.4 * depth
         rel = np.max(np.abs(ek * k ** p - e1)[deep] / np.abs(e1[deep]))
         ctx.check(rel <= 50 * tol, "plateau-scan-differs", desc, f"max rel diff of E(delta)*k^p: {rel:.3e}")
         if abs(f1["optimal_fit_delta"] - fk["optimal_fit_delta"]) > 1e-9 * depth:
